@@ -31,9 +31,9 @@ theorem primGet_congr {v v' : Option Bits} {vals vals' : List Int} {i : Nat}
   · have hi' : ¬ i < vals'.length := hl ▸ hi
     simp only [List.getElem?_eq_none_iff.mpr (Nat.le_of_not_lt hi), List.getElem?_eq_none_iff.mpr (Nat.le_of_not_lt hi')]
 
-theorem codecRead_congr {v v' : Option Bits} {vals vals' : List Int} {i : Nat}
+theorem codecRead_congr {fmt : Int → R DVal} {v v' : Option Bits} {vals vals' : List Int} {i : Nat}
     (h : SlotAgree i vals.length vals'.length v v' (vals[i]? = vals'[i]?)) :
-    codecRead Fixes.all v vals i = codecRead Fixes.all v' vals' i := by
+    codecRead Fixes.all fmt v vals i = codecRead Fixes.all fmt v' vals' i := by
   unfold codecRead
   rw [primGet_congr h]
 
